@@ -149,6 +149,13 @@ func (r *Results) Next() bool {
 	select {
 	case batch, ok := <-r.rowChan:
 		if !ok {
+			// The channel also closes when the workers wound down because
+			// the caller canceled (dropping rows) after the check above; the
+			// select may pick this case over ctx.Done, and a canceled query
+			// must not be mistaken for a complete one.
+			if r.callerCtx.Err() != nil {
+				return r.terminate()
+			}
 			// Clean completion: all workers finished and every buffered row
 			// has been delivered. Recorded errors (failed blocks, a failed
 			// MetaStore iteration), if any, are the terminal state; the query
